@@ -228,6 +228,5 @@ WITNESSES = [
 ]
 TWINS = [
     {"name": "load-tested-separately-after-the-refusal", "file": BS, "old": "            elif load:\n                opt_pb.database.update_from_hdf", "new": "            if load:\n                opt_pb.database.update_from_hdf"},
-    {"name": "append-positional", "file": BS, "old": "self.save_optimization_history(self._opt_hist_backup_path, append=True)", "new": "self.save_optimization_history(self._opt_hist_backup_path, append=bool(1))", "expect_fail_ok": True},
+    {"name": "backup-path-by-keyword", "file": BS, "old": "self.save_optimization_history(self._opt_hist_backup_path, append=True)", "new": "self.save_optimization_history(file_path=self._opt_hist_backup_path, append=True)"},
 ]
-TWINS = []
